@@ -652,4 +652,655 @@ theorem SInv_wfS {s : State} {n : List Blk} {o : Bool} (hinv : SInv s n o) : wfS
   rw [this] at h1
   exact wfS_prefix _ _ _ h1
 
+/-! ### the link between the fragment model's ghost store and the block writer's file -/
+
+theorem bw_run_snoc : ∀ (cs : List Call) (s0 s : BlockWriter.State) (locs : List Nat) (c : Call) (s' : BlockWriter.State)
+    (loc : Nat), BlockWriter.run s0 cs = .ok (s, locs) → BlockWriter.writeDataBlock s c.chk c.flags c.data = .ok (s', loc) →
+    BlockWriter.run s0 (cs ++ [c]) = .ok (s', locs ++ [loc]) := by
+  intro cs
+  induction cs with
+  | nil =>
+    intro s0 s locs c s' loc hr hw
+    simp only [BlockWriter.run] at hr
+    cases hr
+    simp [BlockWriter.run, hw]
+  | cons x xs ih =>
+    intro s0 s locs c s' loc hr hw
+    simp only [List.cons_append, BlockWriter.run] at hr ⊢
+    split at hr
+    · cases hr
+    · rename_i s1 l1 h1
+      split at hr
+      · cases hr
+      · rename_i s2 ls h2
+        cases hr
+        rw [ih s1 s ls c s' loc h2 hw]
+        rfl
+
+/-- fragment block `i` is on disk as `stored`: it was written by call `k`, whose location the table records -/
+def Linked (s : State) (i : Nat) (stored : Bytes) (cmp : Bool) : Prop :=
+  ∃ (k : Nat) (c : Call) (loc : Nat), s.calls[k]? = some c ∧ s.locs[k]? = some loc ∧ c.data = stored ∧
+    c.fragBlk = true ∧ c.stored = true ∧ hasFlag c.flags blkIsCompressed = cmp ∧
+    s.fragTbl[i]? = some (loc, BlockWriter.mkWord stored.length c.flags)
+
+structure LInv (pre : Bytes) (s : State) : Prop where
+  bwrun : BlockWriter.run (BlockWriter.init pre) s.calls = .ok (s.bw, s.locs)
+  lens  : s.locs.length = s.calls.length
+  link  : ∀ (i : Nat) (d stored : Bytes) (cmp : Bool) (fl : Nat),
+            s.fd.blocks[i]? = some ⟨d, .written stored cmp, fl⟩ → stored ≠ [] → Linked s i stored cmp
+  tbl   : s.fd.blocks.length ≤ s.fragTbl.length
+
+theorem LInv_init (B : Nat) (pre : Bytes) : LInv pre (init B pre) :=
+  ⟨rfl, rfl, fun i d stored cmp fl h => (by simp [init] at h), Nat.le_refl _⟩
+
+theorem Linked_congr {s s' : State} {i : Nat} {stored : Bytes} {cmp : Bool} (h : Linked s i stored cmp)
+    (h1 : ∀ (k : Nat) (c : Call), s.calls[k]? = some c → s'.calls[k]? = some c)
+    (h2 : ∀ (k : Nat) (l : Nat), s.locs[k]? = some l → s'.locs[k]? = some l)
+    (h3 : ∀ (e : Nat × Nat), s.fragTbl[i]? = some e → s'.fragTbl[i]? = some e) : Linked s' i stored cmp := by
+  obtain ⟨k, c, loc, a1, a2, a3, a4, a5, a6, a7⟩ := h
+  exact ⟨k, c, loc, h1 k c a1, h2 k loc a2, a3, a4, a5, a6, h3 _ a7⟩
+
+/-- a step of the fragment model that puts no new block on disk keeps the link -/
+theorem LInv_fd {pre : Bytes} {s s' : State} (h : LInv pre s) (hnw : FragDedup.NoNewWritten s.fd s'.fd)
+    (h1 : s'.calls = s.calls) (h2 : s'.locs = s.locs) (h3 : s'.bw = s.bw)
+    (h4 : ∀ (i : Nat) (e : Nat × Nat), s.fragTbl[i]? = some e → s'.fragTbl[i]? = some e)
+    (h5 : s'.fd.blocks.length ≤ s'.fragTbl.length) :
+    LInv pre s' := by
+  refine ⟨by rw [h1, h2, h3]; exact h.bwrun, by rw [h1, h2]; exact h.lens, ?_, h5⟩
+  intro i d stored cmp fl hb hne
+  have hold := hnw i _ hb ⟨stored, cmp, rfl⟩
+  exact Linked_congr (h.link i d stored cmp fl hold hne) (fun k c hc => by rw [h1]; exact hc)
+    (fun k l hl => by rw [h2]; exact hl) (h4 i)
+
+theorem growTbl_get (tbl : List (Nat × Nat)) (n i : Nat) (e : Nat × Nat) (h : tbl[i]? = some e) :
+    (growTbl tbl n)[i]? = some e := getElem?_append_some h
+
+theorem growTbl_len (tbl : List (Nat × Nat)) (n : Nat) : n ≤ (growTbl tbl n).length := by
+  unfold growTbl; simp; omega
+
+theorem enqueue_fields (codec : Codec) (h : Bytes → UInt32) (s : State) (i : Nat) :
+    (enqueueFragBlock codec h s i).calls = s.calls ∧ (enqueueFragBlock codec h s i).locs = s.locs ∧
+    (enqueueFragBlock codec h s i).bw = s.bw ∧ (enqueueFragBlock codec h s i).fragTbl = s.fragTbl ∧
+    (enqueueFragBlock codec h s i).fd = s.fd ∧ (enqueueFragBlock codec h s i).fevs = s.fevs ∧
+    (enqueueFragBlock codec h s i).fres = s.fres ∧ (enqueueFragBlock codec h s i).B = s.B ∧
+    (enqueueFragBlock codec h s i).pending = s.pending ∧ (enqueueFragBlock codec h s i).ioQueue = s.ioQueue := by
+  unfold enqueueFragBlock
+  split <;> exact ⟨rfl, rfl, rfl, rfl, rfl, rfl, rfl, rfl, rfl, rfl⟩
+
+theorem enqueue_LInv (codec : Codec) (h : Bytes → UInt32) {pre : Bytes} {s : State} (i : Nat) (hinv : LInv pre s) :
+    LInv pre (enqueueFragBlock codec h s i) := by
+  obtain ⟨e1, e2, e3, e4, e5, _⟩ := enqueue_fields codec h s i
+  exact LInv_fd hinv (by rw [e5]; exact FragDedup.NoNewWritten.refl _) e1 e2 e3 (fun i e he => by rw [e4]; exact he)
+    (by rw [e4, e5]; exact hinv.tbl)
+
+theorem handleFragment_LInv (codec : Codec) (h : Bytes → UInt32) {pre : Bytes} {s s' : State} (frag : Blk) (out : Out)
+    (hinv : LInv pre s) (hrun : handleFragment codec h s frag = .ok (s', out)) : LInv pre s' := by
+  unfold handleFragment at hrun
+  split at hrun
+  · cases hrun
+  · rename_i r fd' hpf
+    have hnw := (FragDedup.processFragment_struct codec h s.B s.fd frag.data frag.flags r fd' hpf).2.2
+    simp only [] at hrun
+    generalize hs1 : ({ s with fd := fd', fragTbl := growTbl s.fragTbl fd'.blocks.length,
+                               fevs := s.fevs ++ [.frag frag.data frag.flags], fres := s.fres ++ [some r] } : State) = s1 at hrun
+    have h1 : LInv pre s1 := by
+      subst hs1
+      exact LInv_fd hinv hnw rfl rfl rfl (fun i e he => growTbl_get _ _ _ _ he) (growTbl_len _ _)
+    split at hrun
+    · cases hrun; exact h1
+    · cases hrun
+      exact enqueue_LInv codec h _ h1
+
+theorem mkWord_clear (n f : Nat) : BlockWriter.mkWord n (clearFlag f blkFlagInternal) = BlockWriter.mkWord n f := by
+  unfold BlockWriter.mkWord
+  rw [hasFlag_clear _ _ (by decide)]
+
+/-- everything a successful `process_completed_block` does -/
+theorem completeBlock_shape (codec : Codec) (s s' : State) (b : Blk) (out : Out)
+    (h : completeBlock codec s b = .ok (s', out)) :
+    ∃ bw' loc, BlockWriter.writeDataBlock s.bw b.call.chk b.call.flags b.call.data = .ok (bw', loc) ∧ s'.bw = bw' ∧
+      s'.calls = s.calls ++ [b.call] ∧ s'.locs = s.locs ++ [loc] ∧ s'.B = s.B ∧ s'.pending = s.pending ∧
+      s'.pool = s.pool ∧ s'.ioQueue = s.ioQueue ∧
+      ((hasFlag b.flags blkFragmentBlock = false ∧ s'.fd = s.fd ∧ s'.fragTbl = s.fragTbl ∧ s'.fevs = s.fevs ∧
+          s'.fres = s.fres) ∨
+       (hasFlag b.flags blkFragmentBlock = true ∧ FragDedup.blockWritten codec s.fd b.index = .ok s'.fd ∧
+          (∃ x y, s'.fd.blocks[b.index]? = some ⟨x, .written b.data (hasFlag b.flags blkIsCompressed), y⟩) ∧
+          hasFlag b.flags blkIsSparse = false ∧
+          s'.fragTbl = (if b.data.length != 0 then s.fragTbl.set b.index (loc, BlockWriter.mkWord b.data.length b.flags)
+                        else s.fragTbl) ∧
+          s'.fevs = s.fevs ++ [.written b.index] ∧ s'.fres = s.fres ++ [none])) := by
+  unfold completeBlock at h
+  simp only [] at h
+  split at h
+  · cases h
+  · rename_i bw' loc hw
+    refine ⟨bw', loc, hw, ?_⟩
+    split at h
+    · rename_i hfb
+      split at h
+      · cases h
+      · rename_i fd' hbw
+        split at h
+        · rename_i x stored cmp y hget
+          split at h
+          · rename_i hok
+            obtain ⟨e1, e2, e3⟩ := hok
+            subst e1 e2
+            split at h
+            · rename_i hlen
+              cases h
+              exact ⟨rfl, rfl, rfl, rfl, rfl, rfl, rfl, Or.inr ⟨hfb, hbw, ⟨x, y, hget⟩, e3, by simp [hlen], rfl, rfl⟩⟩
+            · rename_i hlen
+              cases h
+              exact ⟨rfl, rfl, rfl, rfl, rfl, rfl, rfl, Or.inr ⟨hfb, hbw, ⟨x, y, hget⟩, e3, by simp [hlen], rfl, rfl⟩⟩
+          · cases h
+        · cases h
+    · rename_i hfb
+      cases h
+      exact ⟨rfl, rfl, rfl, rfl, rfl, rfl, rfl, Or.inl ⟨by simpa using hfb, rfl, rfl, rfl, rfl⟩⟩
+
+theorem completeBlock_LInv (codec : Codec) {pre : Bytes} {s s' : State} (b : Blk) (out : Out)
+    (hinv : LInv pre s) (hrun : completeBlock codec s b = .ok (s', out)) : LInv pre s' := by
+  obtain ⟨bw', loc, hw, e1, e2, e3, _, _, _, _, hcase⟩ := completeBlock_shape codec s s' b out hrun
+  have hrun' : BlockWriter.run (BlockWriter.init pre) s'.calls = .ok (s'.bw, s'.locs) := by
+    rw [e1, e2, e3]
+    exact bw_run_snoc _ _ _ _ b.call _ _ hinv.bwrun hw
+  have hlens : s'.locs.length = s'.calls.length := by rw [e2, e3]; simp [hinv.lens]
+  have hc : ∀ (k : Nat) (c : Call), s.calls[k]? = some c → s'.calls[k]? = some c :=
+    fun k c hk => by rw [e2]; exact getElem?_append_some hk
+  have hl : ∀ (k : Nat) (l : Nat), s.locs[k]? = some l → s'.locs[k]? = some l :=
+    fun k l hk => by rw [e3]; exact getElem?_append_some hk
+  rcases hcase with ⟨_, f1, f2, _, _⟩ | ⟨hfb, hbw, ⟨x, y, hget⟩, hsp, f2, _, _⟩
+  · refine ⟨hrun', hlens, ?_, by rw [f1, f2]; exact hinv.tbl⟩
+    intro i d stored cmp fl hb hne
+    rw [f1] at hb
+    exact Linked_congr (hinv.link i d stored cmp fl hb hne) hc hl (fun e he => by rw [f2]; exact he)
+  · obtain ⟨b0, p, hb0, _, _, hother, hlen⟩ := FragDedup.blockWritten_struct codec s.fd s'.fd b.index hbw
+    have hj : b.index < s.fragTbl.length := by
+      have : b.index < s.fd.blocks.length := (List.getElem?_eq_some_iff.1 hb0).1
+      have := hinv.tbl; omega
+    refine ⟨hrun', hlens, ?_, ?_⟩
+    · intro i d stored cmp fl hb hne
+      by_cases hij : i = b.index
+      · subst hij
+        rw [hget] at hb
+        injection hb with hb
+        injection hb with _ hpl _
+        injection hpl with hst hcm
+        subst hst hcm
+        have hlen0 : (b.data.length != 0) = true := by
+          cases hd : b.data with
+          | nil => exact absurd hd hne
+          | cons _ _ => simp
+        refine ⟨s.calls.length, b.call, loc, ?_, ?_, rfl, ?_, ?_, ?_, ?_⟩
+        · rw [e2, List.getElem?_append_right (Nat.le_refl _)]; simp
+        · rw [e3, ← hinv.lens, List.getElem?_append_right (Nat.le_refl _)]; simp
+        · rw [call_fragBlk]; exact hfb
+        · show (b.data.length != 0 && !hasFlag (clearFlag b.flags blkFlagInternal) blkIsSparse) = true
+          rw [hasFlag_clear _ _ (by decide), hsp, hlen0]; rfl
+        · exact hasFlag_clear _ _ (by decide)
+        · rw [f2, if_pos hlen0, List.getElem?_set_self hj]
+          show some (loc, BlockWriter.mkWord b.data.length b.flags) = some (loc, BlockWriter.mkWord b.data.length (clearFlag b.flags blkFlagInternal))
+          rw [mkWord_clear]
+      · rw [hother i hij] at hb
+        refine Linked_congr (hinv.link i d stored cmp fl hb hne) hc hl ?_
+        intro e he
+        rw [f2]
+        split
+        · rw [List.getElem?_set_ne (Ne.symm hij)]; exact he
+        · exact he
+    · rw [hlen, f2]
+      split
+      · rw [List.length_set]; exact hinv.tbl
+      · exact hinv.tbl
+
+theorem step_LInv (codec : Codec) (h : Bytes → UInt32) {pre : Bytes} {s s' : State} (e : Ev) (out : Out)
+    (hinv : LInv pre s) (hrun : step codec h s e = .ok (s', out)) : LInv pre s' := by
+  have keep : ∀ (t : State), t.calls = s.calls → t.locs = s.locs → t.bw = s.bw → t.fragTbl = s.fragTbl → t.fd = s.fd →
+      LInv pre t := by
+    intro t a1 a2 a3 a4 a5
+    exact LInv_fd hinv (by rw [a5]; exact FragDedup.NoNewWritten.refl _) a1 a2 a3 (fun i e he => by rw [a4]; exact he)
+      (by rw [a4, a5]; exact hinv.tbl)
+  cases e with
+  | file uflags data =>
+    simp only [step] at hrun
+    split at hrun
+    · cases hrun
+    · cases hrun; exact keep _ rfl rfl rfl rfl rfl
+  | submit =>
+    simp only [step] at hrun
+    split at hrun
+    · cases hrun
+    · cases hrun; exact keep _ rfl rfl rfl rfl rfl
+  | dequeue =>
+    simp only [step] at hrun
+    split at hrun
+    · cases hrun
+    · rename_i blk rest hp
+      split at hrun
+      · exact handleFragment_LInv codec h blk out (keep { s with pool := rest } rfl rfl rfl rfl rfl) hrun
+      · split at hrun
+        · cases hrun; exact keep _ rfl rfl rfl rfl rfl
+        · cases hrun; exact keep _ rfl rfl rfl rfl rfl
+  | complete =>
+    simp only [step] at hrun
+    split at hrun
+    · cases hrun
+    · rename_i b rest hq
+      split at hrun
+      · cases hrun
+      · exact completeBlock_LInv codec b out (keep { s with ioQueue := rest, deqSeq := s.deqSeq + 1 } rfl rfl rfl rfl rfl) hrun
+  | finish =>
+    simp only [step] at hrun
+    split at hrun
+    · cases hrun
+    · split at hrun
+      · cases hrun; exact keep _ rfl rfl rfl rfl rfl
+      · rename_i i hoi
+        cases hrun
+        refine enqueue_LInv codec h i ?_
+        exact LInv_fd hinv (FragDedup.closeOpen_struct s.fd).2.2 rfl rfl rfl (fun i e he => he)
+          (by show (FragDedup.closeOpen s.fd).blocks.length ≤ s.fragTbl.length
+              have : (FragDedup.closeOpen s.fd).blocks.length = s.fd.blocks.length := by
+                unfold FragDedup.closeOpen; split <;> simp
+              rw [this]; exact hinv.tbl)
+
+theorem run_LInv (codec : Codec) (h : Bytes → UInt32) {pre : Bytes} : ∀ (evs : List Ev) {s s' : State}
+    (outs : List Out), LInv pre s → run codec h s evs = .ok (s', outs) → LInv pre s' := by
+  intro evs
+  induction evs with
+  | nil => intro s s' outs hinv hr; simp only [run] at hr; cases hr; exact hinv
+  | cons e es ih =>
+    intro s s' outs hinv hr
+    unfold run at hr
+    split at hr
+    · cases hr
+    · rename_i s1 o1 hs
+      split at hr
+      · cases hr
+      · rename_i s2 os hr2
+        cases hr
+        exact ih os (step_LInv codec h e o1 hinv hs) hr2
+
+/-! ### sizes, and the fragment model's own run -/
+
+theorem and_bit24 (n : Nat) (h : n < 2 ^ 24) : n &&& (1 <<< 24) = 0 := by
+  have e : (1 <<< 24 : Nat) = 2 ^ 24 := by decide
+  rw [e]
+  apply Nat.eq_of_testBit_eq
+  intro i
+  rw [Nat.testBit_and, Nat.testBit_two_pow, Nat.zero_testBit]
+  by_cases hi : 24 = i
+  · subst hi; simp [Nat.testBit_lt_two_pow h]
+  · simp [hi]
+
+theorem or_bit24 (n : Nat) : (n ||| (1 <<< 24)) &&& (1 <<< 24) ≠ 0 := by
+  have e : (1 <<< 24 : Nat) = 2 ^ 24 := by decide
+  rw [e]
+  intro h0
+  have := congrArg (fun x => Nat.testBit x 24) h0
+  simp only [Nat.testBit_and, Nat.testBit_or, Nat.zero_testBit] at this
+  have h24 : Nat.testBit (2 ^ 24) 24 = true := by decide
+  rw [h24] at this
+  simp at this
+
+/-- the raw bit of a size word -/
+theorem mkWord_raw (n flags : Nat) (h : n < 2 ^ 24) :
+    (BlockWriter.mkWord n flags &&& (1 <<< 24) != 0) = !hasFlag flags blkIsCompressed := by
+  unfold BlockWriter.mkWord
+  split
+  · rename_i hc; rw [hc, and_bit24 n h]; rfl
+  · rename_i hc
+    have hc' : hasFlag flags blkIsCompressed = false := by simpa using hc
+    rw [hc']
+    have := or_bit24 n
+    show ((n ||| 1 <<< 24) &&& 1 <<< 24 != 0) = true
+    rw [bne_iff_ne]; exact this
+
+theorem hasFlag_or_false (f a b : Nat) (h : hasFlag f (a ||| b) = false) : hasFlag f a = false := by
+  unfold hasFlag at h ⊢
+  have h0 : f &&& (a ||| b) = 0 := by simpa using h
+  rw [Nat.and_or_distrib_left, Nat.or_eq_zero_iff] at h0
+  simp [h0.1]
+
+/-- the worker leaves the bytes alone or replaces them by the compressor's output; never for a tail end -/
+theorem processBlock_data (codec : Codec) (h : Bytes → UInt32) (b : Blk) :
+    (processBlock codec h b).data = b.data ∨
+      (∃ z, codec.cmp b.data = some z ∧ (processBlock codec h b).data = z ∧ b.kind.isFrag = false) := by
+  unfold processBlock
+  split
+  · exact Or.inl rfl
+  · split
+    · exact Or.inl rfl
+    · simp only []
+      split
+      · exact Or.inl rfl
+      · rename_i hnf
+        split
+        · rename_i z hz
+          exact Or.inr ⟨z, hz, rfl, hasFlag_or_false _ _ _ (by simpa using hnf)⟩
+        · exact Or.inl rfl
+
+/-- the codec writes into a buffer of `B` bytes (`worker->scratch_size = max_block_size`) -/
+def Fits (codec : Codec) (B : Nat) : Prop := ∀ x z, codec.cmp x = some z → z.length ≤ B
+
+theorem processBlock_size (codec : Codec) (h : Bytes → UInt32) (B : Nat) (hfit : Fits codec B) (b : Blk)
+    (hb : b.data.length ≤ B ∧ (b.kind.isFrag = true → b.data ≠ [])) :
+    (processBlock codec h b).data.length ≤ B ∧ ((processBlock codec h b).kind.isFrag = true → (processBlock codec h b).data ≠ []) := by
+  have hk := (processBlock_kind codec h b).1
+  rcases processBlock_data codec h b with hd | ⟨z, hz, hd, hnf⟩
+  · rw [hd, hk]; exact hb
+  · rw [hd, hk]
+    exact ⟨hfit _ _ hz, fun hf => by rw [hnf] at hf; cases hf⟩
+
+theorem slice_len_le (d : Bytes) (off B : Nat) : (BlockWriter.slice d off B).length ≤ B := by
+  simp [BlockWriter.slice]; omega
+
+theorem fullBlocks_sizes (B uf : Nat) (data : Bytes) (huf : uf < 32) : ∀ (k off : Nat) (first : Bool),
+    ∀ b ∈ fullBlocks B uf data k off first, b.data.length ≤ B ∧ (b.kind.isFrag = true → b.data ≠ []) := by
+  intro k
+  induction k with
+  | zero => intro off first b hb; cases hb
+  | succ k ih =>
+    intro off first b hb
+    simp only [fullBlocks, List.mem_cons] at hb
+    rcases hb with rfl | hm
+    · refine ⟨slice_len_le _ _ _, ?_⟩
+      intro hf
+      exfalso
+      have : (Blk.kind { flags := if first = true then uf ||| blkFirstBlock else uf,
+                          data := BlockWriter.slice data off B }).isFrag = false := by
+        unfold Blk.kind
+        cases first
+        · have := kind_user uf huf; simp [this]
+        · have := kind_first uf huf; simp [this]
+      rw [this] at hf; cases hf
+    · exact ih _ _ b hm
+
+theorem fileBlocks_sizes (B uf : Nat) (data : Bytes) (hB : 0 < B) (huf : uf < 32) :
+    ∀ b ∈ fileBlocks B uf data, b.data.length ≤ B ∧ (b.kind.isFrag = true → b.data ≠ []) := by
+  have htail : (data.drop (data.length / B * B)).length ≤ B := by
+    have h1 := Nat.div_add_mod' data.length B
+    have h2 := Nat.mod_lt data.length hB
+    simp only [List.length_drop]; omega
+  have hsent : ∀ b : Blk, b = { flags := uf ||| blkLastBlock } → b.data.length ≤ B ∧ (b.kind.isFrag = true → b.data ≠ []) := by
+    intro b hb; subst hb
+    refine ⟨Nat.zero_le _, fun hf => ?_⟩
+    have : (Blk.kind { flags := uf ||| blkLastBlock }).isFrag = false := by
+      have := kind_last uf huf; unfold Blk.kind; simp [this]
+    rw [this] at hf; cases hf
+  intro b hb
+  unfold fileBlocks at hb
+  simp only [] at hb
+  split at hb
+  · rcases List.mem_append.1 hb with hm | hm
+    · exact fullBlocks_sizes B uf data huf _ _ _ b hm
+    · split at hm
+      · cases hm
+      · exact hsent b (by simpa using hm)
+  · rename_i htl
+    split at hb
+    · rcases List.mem_append.1 hb with hm | hm
+      · exact fullBlocks_sizes B uf data huf _ _ _ b hm
+      · rw [List.mem_singleton] at hm
+        subst hm
+        refine ⟨htail, fun hf => ?_⟩
+        exfalso
+        have : (Blk.kind { flags := (if data.length / B = 0 then uf ||| blkFirstBlock else uf) ||| blkLastBlock,
+                            data := List.drop (data.length / B * B) data }).isFrag = false := by
+          unfold Blk.kind
+          split
+          · have := kind_first_last uf huf; simp [this]
+          · have := kind_last uf huf; simp [this]
+        rw [this] at hf; cases hf
+    · rcases List.mem_append.1 hb with hm | hm
+      · rcases List.mem_append.1 hm with hm2 | hm2
+        · exact fullBlocks_sizes B uf data huf _ _ _ b hm2
+        · split at hm2
+          · cases hm2
+          · exact hsent b (by simpa using hm2)
+      · rw [List.mem_singleton] at hm
+        subst hm
+        refine ⟨htail, fun _ he => ?_⟩
+        apply htl
+        show (List.drop (data.length / B * B) data).length = 0
+        change List.drop (data.length / B * B) data = [] at he
+        rw [he]; rfl
+
+theorem fd_run_snoc (codec : Codec) (h : Bytes → UInt32) (B : Nat) : ∀ (evs : List FragDedup.Ev) (st st' st'' : FragDedup.State)
+    (rs : List (Option FragDedup.Res)) (e : FragDedup.Ev) (r : Option FragDedup.Res),
+    FragDedup.run codec h true B st evs = .ok (rs, st') → FragDedup.step codec h true B st' e = .ok (r, st'') →
+    FragDedup.run codec h true B st (evs ++ [e]) = .ok (rs ++ [r], st'') := by
+  intro evs
+  induction evs with
+  | nil =>
+    intro st st' st'' rs e r hr hs
+    simp only [FragDedup.run] at hr
+    cases hr
+    simp [FragDedup.run, hs]
+  | cons x xs ih =>
+    intro st st' st'' rs e r hr hs
+    simp only [List.cons_append, FragDedup.run] at hr ⊢
+    split at hr
+    · cases hr
+    · rename_i r1 s1 h1
+      split at hr
+      · cases hr
+      · rename_i rs2 s2 h2
+        cases hr
+        rw [ih s1 st' st'' rs2 e r h2 hs]
+        rfl
+
+structure ZInv (codec : Codec) (h : Bytes → UInt32) (s : State) : Prop where
+  pend  : ∀ b ∈ s.pending, b.data.length ≤ s.B ∧ (b.kind.isFrag = true → b.data ≠ [])
+  pool  : ∀ b ∈ s.pool, b.data.length ≤ s.B ∧ (b.kind.isFrag = true → b.data ≠ [])
+  queue : ∀ b ∈ s.ioQueue, b.data.length ≤ s.B
+  calls : ∀ c ∈ s.calls, c.data.length ≤ s.B
+  fdinv : FragDedup.Inv codec s.fd
+  goodS : FragDedup.GoodS s.B s.fd
+  frun  : FragDedup.run codec h true s.B {} s.fevs = .ok (s.fres, s.fd)
+  fok   : FragDedup.evsOk s.fevs
+
+theorem ZInv_init (codec : Codec) (h : Bytes → UInt32) (B : Nat) (pre : Bytes) : ZInv codec h (init B pre) :=
+  ⟨fun _ hb => (by cases hb), fun _ hb => (by cases hb), fun _ hb => (by cases hb), fun _ hb => (by cases hb),
+   FragDedup.Inv_init codec, fun i b hb => (by simp [init] at hb), rfl, fun e he => (by cases he)⟩
+
+theorem enqueue_ZInv (codec : Codec) (h : Bytes → UInt32) {s : State} (hfit : Fits codec s.B) (i : Nat)
+    (hinv : ZInv codec h s) : ZInv codec h (enqueueFragBlock codec h s i) := by
+  unfold enqueueFragBlock
+  cases hb : s.fd.blocks[i]? with
+  | none => exact hinv
+  | some fb =>
+    simp only []
+    refine ⟨hinv.pend, ?_, hinv.queue, hinv.calls, hinv.fdinv, hinv.goodS, hinv.frun, hinv.fok⟩
+    intro b hb'
+    rcases List.mem_append.1 hb' with hm | hm
+    · exact hinv.pool b hm
+    · rw [List.mem_singleton] at hm
+      subst hm
+      exact processBlock_size codec h s.B hfit _ ⟨hinv.goodS i fb hb, fun _ => (hinv.fdinv.blocks i fb hb).1⟩
+
+theorem evsOk_snoc (evs : List FragDedup.Ev) (e : FragDedup.Ev) (h : FragDedup.evsOk evs) (he : e.ok) :
+    FragDedup.evsOk (evs ++ [e]) := by
+  intro x hx
+  rcases List.mem_append.1 hx with hm | hm
+  · exact h x hm
+  · rw [List.mem_singleton] at hm; subst hm; exact he
+
+theorem enqueue_B (codec : Codec) (h : Bytes → UInt32) (s : State) (i : Nat) : (enqueueFragBlock codec h s i).B = s.B :=
+  (enqueue_fields codec h s i).2.2.2.2.2.2.2.1
+
+theorem handleFragment_ZInv (codec : Codec) (h : Bytes → UInt32) {s s' : State} (hfit : Fits codec s.B) (frag : Blk) (out : Out)
+    (hinv : ZInv codec h s) (hfrag : frag.data.length ≤ s.B ∧ frag.data ≠ [])
+    (hrun : handleFragment codec h s frag = .ok (s', out)) : ZInv codec h s' ∧ s'.B = s.B := by
+  unfold handleFragment at hrun
+  split at hrun
+  · cases hrun
+  · rename_i r fd' hpf
+    obtain ⟨r2, st2, hpf2, hinv2, _⟩ := FragDedup.processFragment_spec codec h s.B s.fd frag.data frag.flags [] hinv.fdinv hfrag.2
+      (fun p hp => by cases hp)
+    rw [hpf] at hpf2
+    cases hpf2
+    have hgs := (FragDedup.processFragment_struct codec h s.B s.fd frag.data frag.flags r fd' hpf).2.1 hinv.fdinv hfrag.1 hinv.goodS
+    simp only [] at hrun
+    generalize hs1 : ({ s with fd := fd', fragTbl := growTbl s.fragTbl fd'.blocks.length,
+                               fevs := s.fevs ++ [.frag frag.data frag.flags], fres := s.fres ++ [some r] } : State) = s1 at hrun
+    have h1 : ZInv codec h s1 ∧ s1.B = s.B := by
+      subst hs1
+      refine ⟨⟨hinv.pend, hinv.pool, hinv.queue, hinv.calls, hinv2, hgs, ?_, ?_⟩, rfl⟩
+      · exact fd_run_snoc codec h s.B _ _ _ _ _ _ _ hinv.frun (by simp [FragDedup.step, hpf])
+      · exact evsOk_snoc _ _ hinv.fok hfrag.2
+    split at hrun
+    · cases hrun; exact h1
+    · cases hrun
+      exact ⟨enqueue_ZInv codec h (by rw [h1.2]; exact hfit) _ h1.1, by rw [enqueue_B, h1.2]⟩
+
+theorem blockWritten_goodS (codec : Codec) (B : Nat) (st st' : FragDedup.State) (idx : Nat)
+    (h : FragDedup.blockWritten codec st idx = .ok st') (hg : FragDedup.GoodS B st) : FragDedup.GoodS B st' := by
+  obtain ⟨b, p, hb, _, hb', hne, _⟩ := FragDedup.blockWritten_struct codec st st' idx h
+  intro j x hx
+  by_cases hj : j = idx
+  · subst hj
+    rw [hb'] at hx; cases hx
+    exact hg j b hb
+  · rw [hne j hj] at hx
+    exact hg j x hx
+
+theorem completeBlock_ZInv (codec : Codec) (hrt : codec.RoundTrip) (h : Bytes → UInt32) {s s' : State} (b : Blk) (out : Out)
+    (hinv : ZInv codec h s) (hb : b.data.length ≤ s.B) (hrun : completeBlock codec s b = .ok (s', out)) :
+    ZInv codec h s' ∧ s'.B = s.B := by
+  obtain ⟨bw', loc, hw, e1, e2, e3, eB, ep, epl, eq, hcase⟩ := completeBlock_shape codec s s' b out hrun
+  have hcalls : ∀ c ∈ s'.calls, c.data.length ≤ s'.B := by
+    rw [e2, eB]
+    intro c hc
+    rcases List.mem_append.1 hc with hm | hm
+    · exact hinv.calls c hm
+    · rw [List.mem_singleton] at hm; subst hm; exact hb
+  refine ⟨?_, eB⟩
+  rcases hcase with ⟨_, f1, _, f3, f4⟩ | ⟨_, hbw, _, _, _, f3, f4⟩
+  · exact ⟨by rw [ep, eB]; exact hinv.pend, by rw [epl, eB]; exact hinv.pool, by rw [eq, eB]; exact hinv.queue, hcalls,
+      by rw [f1]; exact hinv.fdinv, by rw [f1, eB]; exact hinv.goodS, by rw [f1, f3, f4, eB]; exact hinv.frun,
+      by rw [f3]; exact hinv.fok⟩
+  · have hi : FragDedup.Inv codec s'.fd := by
+      rcases FragDedup.blockWritten_spec codec hrt s.fd b.index hinv.fdinv with ⟨st', h1, h2, _⟩ | herr
+      · rw [hbw] at h1; cases h1; exact h2
+      · rw [hbw] at herr; cases herr
+    exact ⟨by rw [ep, eB]; exact hinv.pend, by rw [epl, eB]; exact hinv.pool, by rw [eq, eB]; exact hinv.queue, hcalls,
+      hi, by rw [eB]; exact blockWritten_goodS codec s.B _ _ _ hbw hinv.goodS,
+      by rw [f3, f4, eB]; exact fd_run_snoc codec h s.B _ _ _ _ _ _ _ hinv.frun (by simp [FragDedup.step, hbw]),
+      by rw [f3]; exact evsOk_snoc _ _ hinv.fok trivial⟩
+
+theorem step_ZInv (codec : Codec) (hrt : codec.RoundTrip) (h : Bytes → UInt32) {s s' : State} (hfit : Fits codec s.B)
+    (hB : 0 < s.B) (e : Ev) (out : Out) (hinv : ZInv codec h s) (hrun : step codec h s e = .ok (s', out)) :
+    ZInv codec h s' ∧ s'.B = s.B := by
+  cases e with
+  | file uflags data =>
+    simp only [step] at hrun
+    split at hrun
+    · cases hrun
+    · rename_i hg
+      cases hrun
+      have huf : uflags < 32 := by
+        have h1 : uflags &&& blkUserSettable = uflags := by simpa using hg
+        have h2 : uflags &&& blkUserSettable ≤ blkUserSettable := Nat.and_le_right
+        have h3 : blkUserSettable = 31 := rfl
+        omega
+      refine ⟨⟨?_, hinv.pool, hinv.queue, hinv.calls, hinv.fdinv, hinv.goodS, hinv.frun, hinv.fok⟩, rfl⟩
+      intro b hb
+      rcases List.mem_append.1 hb with hm | hm
+      · exact hinv.pend b hm
+      · exact fileBlocks_sizes s.B uflags data hB huf b hm
+  | submit =>
+    simp only [step] at hrun
+    split at hrun
+    · cases hrun
+    · rename_i b rest hp
+      cases hrun
+      refine ⟨⟨?_, ?_, hinv.queue, hinv.calls, hinv.fdinv, hinv.goodS, hinv.frun, hinv.fok⟩, rfl⟩
+      · intro x hx; exact hinv.pend x (by rw [hp]; exact List.mem_cons_of_mem _ hx)
+      · intro x hx
+        rcases List.mem_append.1 hx with hm | hm
+        · exact hinv.pool x hm
+        · rw [List.mem_singleton] at hm
+          subst hm
+          exact processBlock_size codec h s.B hfit b (hinv.pend b (by rw [hp]; exact List.mem_cons_self ..))
+  | dequeue =>
+    simp only [step] at hrun
+    split at hrun
+    · cases hrun
+    · rename_i blk rest hp
+      have hblk := hinv.pool blk (by rw [hp]; exact List.mem_cons_self ..)
+      have hrest : ∀ b ∈ rest, b.data.length ≤ s.B ∧ (b.kind.isFrag = true → b.data ≠ []) :=
+        fun b hb => hinv.pool b (by rw [hp]; exact List.mem_cons_of_mem _ hb)
+      have h0 : ZInv codec h { s with pool := rest } :=
+        ⟨hinv.pend, hrest, hinv.queue, hinv.calls, hinv.fdinv, hinv.goodS, hinv.frun, hinv.fok⟩
+      split at hrun
+      · rename_i hif
+        exact handleFragment_ZInv codec h (s := { s with pool := rest }) hfit blk out h0 ⟨hblk.1, hblk.2 hif⟩ hrun
+      · split at hrun
+        · cases hrun
+          refine ⟨⟨hinv.pend, hrest, ?_, hinv.calls, hinv.fdinv, hinv.goodS, hinv.frun, hinv.fok⟩, rfl⟩
+          intro x hx
+          rcases mem_storeIo _ _ _ hx with hm | hm
+          · subst hm; exact hblk.1
+          · exact hinv.queue x hm
+        · cases hrun
+          refine ⟨⟨hinv.pend, hrest, ?_, hinv.calls, hinv.fdinv, hinv.goodS, hinv.frun, hinv.fok⟩, rfl⟩
+          intro x hx
+          rcases mem_storeIo _ _ _ hx with hm | hm
+          · subst hm; exact hblk.1
+          · exact hinv.queue x hm
+  | complete =>
+    simp only [step] at hrun
+    split at hrun
+    · cases hrun
+    · rename_i b rest hq
+      split at hrun
+      · cases hrun
+      · have h0 : ZInv codec h { s with ioQueue := rest, deqSeq := s.deqSeq + 1 } :=
+          ⟨hinv.pend, hinv.pool, fun x hx => hinv.queue x (by rw [hq]; exact List.mem_cons_of_mem _ hx), hinv.calls,
+            hinv.fdinv, hinv.goodS, hinv.frun, hinv.fok⟩
+        exact completeBlock_ZInv codec hrt h (s := { s with ioQueue := rest, deqSeq := s.deqSeq + 1 }) b out h0
+          (hinv.queue b (by rw [hq]; exact List.mem_cons_self ..)) hrun
+  | finish =>
+    simp only [step] at hrun
+    split at hrun
+    · cases hrun
+    · have hstep : FragDedup.run codec h true s.B {} (s.fevs ++ [.finish]) = .ok (s.fres ++ [none], FragDedup.closeOpen s.fd) :=
+        fd_run_snoc codec h s.B _ _ _ _ _ _ _ hinv.frun (by simp [FragDedup.step])
+      have hok := evsOk_snoc _ (.finish) hinv.fok trivial
+      split at hrun
+      · rename_i hoi
+        cases hrun
+        have hc : FragDedup.closeOpen s.fd = s.fd := by unfold FragDedup.closeOpen; rw [hoi]
+        rw [hc] at hstep
+        exact ⟨⟨hinv.pend, hinv.pool, hinv.queue, hinv.calls, hinv.fdinv, hinv.goodS, hstep, hok⟩, rfl⟩
+      · rename_i i hoi
+        cases hrun
+        have hcs := FragDedup.closeOpen_spec codec s.fd hinv.fdinv
+        have h1 : ZInv codec h { s with fd := FragDedup.closeOpen s.fd, fevs := s.fevs ++ [.finish], fres := s.fres ++ [none] } :=
+          ⟨hinv.pend, hinv.pool, hinv.queue, hinv.calls, hcs.1, (FragDedup.closeOpen_struct s.fd).2.1 s.B hinv.goodS, hstep, hok⟩
+        exact ⟨enqueue_ZInv codec h (s := { s with fd := FragDedup.closeOpen s.fd, fevs := s.fevs ++ [.finish], fres := s.fres ++ [none] }) hfit i h1,
+          enqueue_B codec h _ i⟩
+
+theorem run_ZInv (codec : Codec) (hrt : codec.RoundTrip) (h : Bytes → UInt32) : ∀ (evs : List Ev) {s s' : State}
+    (outs : List Out), Fits codec s.B → 0 < s.B → ZInv codec h s → run codec h s evs = .ok (s', outs) →
+    ZInv codec h s' ∧ s'.B = s.B := by
+  intro evs
+  induction evs with
+  | nil => intro s s' outs _ _ hinv hr; simp only [run] at hr; cases hr; exact ⟨hinv, rfl⟩
+  | cons e es ih =>
+    intro s s' outs hfit hB hinv hr
+    unfold run at hr
+    split at hr
+    · cases hr
+    · rename_i s1 o1 hs
+      split at hr
+      · cases hr
+      · rename_i s2 os hr2
+        cases hr
+        obtain ⟨h1, hB1⟩ := step_ZInv codec hrt h hfit hB e o1 hinv hs
+        obtain ⟨h2, hB2⟩ := ih os (by rw [hB1]; exact hfit) (by rw [hB1]; exact hB) h1 hr2
+        exact ⟨h2, by rw [hB2, hB1]⟩
+
 end Sqfs.C08Stream
